@@ -609,6 +609,8 @@ def audit_key_type(ctx) -> None:
 
 
 def run(ctx) -> None:
+    from .c14 import r14_10
+    ctx.guard_as("R06.6", r14_10)  # raw key text given to an operation reaches the unsafe-text warning (OctKey.import_key), no direct construction
     ctx.guard(r06_1)
     ctx.guard(r06_2)
     ctx.guard(r06_3)
